@@ -40,7 +40,7 @@ pub fn compose_table_for(code: &str) -> &'static BTreeMap<(char, char), char> {
     use std::sync::OnceLock;
     static T: OnceLock<Vec<(&'static str, BTreeMap<(char, char), char>)>> = OnceLock::new();
     let all = T.get_or_init(|| {
-        crate::gen::LANGS
+        crate::gen::LANGS_EXT
             .iter()
             .map(|c| {
                 // pairs the language itself reports (sound if a language gains a pair) ...
